@@ -6,7 +6,8 @@ VARIABLES S,        \* the libpass context's hasher list
           store, n, obs
 vars == <<S, store, n, obs>>
 Hashers == UNION {{[fmt |-> f, rounds |-> r] : r \in Rounds[f]} : f \in Formats}
-Lists == UNION {{s \in [1..k -> Hashers] : \A i, j \in 1..k : i # j => s[i].fmt # s[j].fmt} : k \in 1..3}
+\* any list of hashers - the same format may occur again further down (an old cost kept for verification)
+Lists == UNION {[1..k -> Hashers] : k \in 1..3}
 NoH == [fmt |-> "none", rounds |-> 0, implicit |-> FALSE, pw |-> "", by |-> ""]
 Obs0 == [op |-> "init", L |-> [fmt |-> "none", rounds |-> 0], h |-> NoH, pw |-> "", res |-> "ok"]
 Init == S \in (IF DoEmit THEN {<<>>} ELSE Lists) /\ store = {} /\ n = 0 /\ obs = Obs0
